@@ -1214,6 +1214,19 @@ impl Core {
 			},
 		)?;
 
+		// The WAL writer was opened before the replay. If the replay repaired a
+		// segment, that file has been replaced (or removed) underneath it and
+		// the writer would go on appending to an inode that is no longer in the
+		// directory. Open it again on what is there now.
+		{
+			let mut wal_guard = inner.wal.write();
+			*wal_guard = Wal::open_with_min_log_number(
+				&wal_path,
+				min_wal_number,
+				wal::Options::default(),
+			)?;
+		}
+
 		// Set recovered memtable as active (if any)
 		if let Some(memtable) = recovered_memtable {
 			let mut active_memtable = inner.active_memtable.write()?;
@@ -1615,6 +1628,17 @@ impl Tree {
 				Ok(())
 			},
 		)?;
+
+		// As at startup: a repair during the replay replaces the segment file the
+		// writer was opened on, so open the writer again afterwards.
+		{
+			let mut wal_guard = self.core.inner.wal.write();
+			*wal_guard = Wal::open_with_min_log_number(
+				&wal_path,
+				manifest_log_number,
+				wal::Options::default(),
+			)?;
+		}
 
 		// Set recovered memtable as active (if any)
 		if let Some(memtable) = recovered_memtable {
